@@ -48,8 +48,22 @@ inductive FmtOutcome
   | panicked (why : String)
   deriving DecidableEq, Repr
 
-/-- `pretty_print_rustfmt` as it stands in /repo -/
+/-- `pretty_print_rustfmt` / `format_with_rustfmt`: any failure – spawn, write, wait, exit status,
+UTF-8, empty output – falls back to the unformatted token text -/
 def prettyPrintRustfmt (env : ProcEnv) (raw : String) : FmtOutcome :=
+  if !env.spawn then .returned raw
+  else match env.wait with
+    | none => .returned raw
+    | some (success, out) =>
+      if !env.write then .returned raw
+      else if !success then .returned raw
+      else match out with
+        | none => .returned raw
+        | some o => if o = "" then .returned raw else .returned o
+
+/-- the function before the repair ("fix: fall back to the unformatted tokens on any rustfmt
+failure"): the three `unwrap()`s panic, empty output is returned as is -/
+def Legacy.prettyPrintRustfmt (env : ProcEnv) (raw : String) : FmtOutcome :=
   if !env.spawn then .returned raw
   else if !env.write then .panicked "write_all(..).unwrap()"
   else match env.wait with
